@@ -566,12 +566,28 @@ mod exec {
         }
     }
 
+    // Like WriteAdapter, the read adapters must release their end of the
+    // pipe before Popen::drop() waits: a child that is blocked writing
+    // output nobody will read any more only exits once the pipe is closed.
+
+    impl Drop for ReadOutAdapter {
+        fn drop(&mut self) {
+            self.0.stdout.take();
+        }
+    }
+
     #[derive(Debug)]
     struct ReadErrAdapter(Popen);
 
     impl Read for ReadErrAdapter {
         fn read(&mut self, buf: &mut [u8]) -> io::Result<usize> {
             self.0.stderr.as_mut().unwrap().read(buf)
+        }
+    }
+
+    impl Drop for ReadErrAdapter {
+        fn drop(&mut self) {
+            self.0.stderr.take();
         }
     }
 
@@ -1141,6 +1157,16 @@ mod pipeline {
         fn read(&mut self, buf: &mut [u8]) -> io::Result<usize> {
             let last = self.0.last_mut().unwrap();
             last.stdout.as_mut().unwrap().read(buf)
+        }
+    }
+
+    impl Drop for ReadPipelineAdapter {
+        // the same rationale as Drop for ReadOutAdapter; the first commands
+        // are waited for first, so the last one's output must be closed
+        // before any of them
+        fn drop(&mut self) {
+            let last = self.0.last_mut().unwrap();
+            last.stdout.take();
         }
     }
 
